@@ -38,7 +38,7 @@ def bounds(tier):
 
 
 DESCS = ["a text", "", "with # hash", "it's", "f(x)=1", "comma, inside", "100%", "tab\tinside", "ends with backslash\\\\", "unicode µV"]
-UNITS = ["mV", "ms**-1", "1", "uA/cm**2", None, "mM", "dimensionless"]
+UNITS = ["mV", "ms**-1", "1", "uA/cm**2", None, "mM", "dimensionless", "not_a_unit", "uA_per_uF", "per ms", "mV/ms", "2 ms", "%", ""]
 
 
 def annotated_texts():
